@@ -141,7 +141,7 @@ func cmdCheck(args []string) int {
 	}
 
 	// 1. generate
-	var obls []*Obligation
+	var obls, census []*Obligation
 	var reps []*FuncReport
 	for _, q := range eng.cf.Order {
 		c := eng.cf.Contracts[q]
@@ -165,8 +165,28 @@ func cmdCheck(args []string) int {
 			obls = append(obls, ob)
 		}
 	}
+	// census obligations: every writer of a field declared stable is under contract
+	if prop == "C08" || prop == "C16" {
+		for _, key := range eng.cf.Stable {
+			ws := eng.fieldWriters(key)
+			var bad []string
+			for _, w := range ws {
+				if c := eng.cf.Contracts[w]; c == nil || c.Inline {
+					bad = append(bad, w)
+				}
+			}
+			o := &Obligation{Name: "census." + key, Base: "census." + key, Kind: "census", Func: "census", Clause: key, Props: []string{prop}, done: true, Solver: "syntactic census", Status: "unsat",
+				GoalText: fmt.Sprintf("every function writing %s is under contract; writers: %s", key, strings.Join(ws, ", "))}
+			if len(bad) > 0 {
+				o.Status = "sat"
+				o.Output = "writers without contract: " + strings.Join(bad, ", ")
+			}
+			census = append(census, o)
+		}
+	}
 	genS := time.Since(t0).Seconds()
 	prepareScripts(obls)
+	obls = append(obls, census...)
 
 	// 2. solve
 	to := 10 * time.Second
